@@ -65,7 +65,11 @@ Allowed(st, ev) ==
          \* a registration is refused only for a function that is registered already (the harness
          \* never exceeds the backend's number of entry points)
          /\ ("out" \in DOMAIN ev =>
-               (ev.out = "ok" \/ \E x \in DOMAIN st.entry[ev.s] : st.entry[ev.s][x] = ev.f))
+               (\/ ev.out = "ok"
+                \/ \E x \in DOMAIN st.entry[ev.s] : st.entry[ev.s][x] = ev.f
+                \/ ("full" \in DOMAIN ev /\ ev.full)))
+         \* ... and when every entry point is in use the registration IS refused
+         /\ (("full" \in DOMAIN ev /\ ev.full) => ev.out = "abort")
     \* the harness occupies all but two entry points of the backend with callbacks nobody calls
     [] ev.e = "fill" -> ev.out = "ok"
     [] ev.e = "unreg" -> TRUE
@@ -146,8 +150,10 @@ Allowed(st, ev) ==
     [] OTHER -> FALSE
 
 Apply(st, ev) ==
-  CASE ev.e = "reg" -> [st EXCEPT !.entry[ev.s] = [x \in (DOMAIN @) \cup {ev.slot} |->
-                                                      IF x = ev.slot THEN ev.f ELSE @[x]]]
+  CASE ev.e = "reg" ->
+         IF "out" \in DOMAIN ev /\ ev.out = "abort" THEN st      \* a refused registration changes nothing
+         ELSE [st EXCEPT !.entry[ev.s] = [x \in (DOMAIN @) \cup {ev.slot} |->
+                                            IF x = ev.slot THEN ev.f ELSE @[x]]]
     [] ev.e = "unreg" -> [st EXCEPT !.entry[ev.s] = [x \in {y \in DOMAIN @ : @[y] # ev.f} |-> @[x]]]
     [] ev.e = "recreate" -> [st EXCEPT !.entry[ev.s] = [x \in {} |-> ""]]
     [] ev.e = "inv_begin" ->
